@@ -323,9 +323,6 @@ func (e *Engine) setFact(c *config, v ssa.Value, a Abs) {
 // simpleCell reports whether the local is only stored to and loaded from
 // directly (e.g. the result cell go/ssa introduces in functions with defers).
 func simpleCell(al *ssa.Alloc) bool {
-	if al.Heap {
-		return false
-	}
 	refs := al.Referrers()
 	if refs == nil {
 		return false
@@ -341,6 +338,33 @@ func simpleCell(al *ssa.Alloc) bool {
 				return false
 			}
 		case *ssa.DebugRef:
+		case *ssa.MakeClosure:
+			// captured by a closure that only reads it (e.g. a deferred
+			// `if err != nil { cleanup }` over a named result)
+			fn, ok := r.Fn.(*ssa.Function)
+			if !ok {
+				return false
+			}
+			for i, b := range r.Bindings {
+				if b != al {
+					continue
+				}
+				if i >= len(fn.FreeVars) {
+					return false
+				}
+				fv := fn.FreeVars[i]
+				if fr := fv.Referrers(); fr != nil {
+					for _, u := range *fr {
+						if ld, ok := u.(*ssa.UnOp); ok && ld.Op == token.MUL {
+							continue
+						}
+						if _, ok := u.(*ssa.DebugRef); ok {
+							continue
+						}
+						return false
+					}
+				}
+			}
 		default:
 			return false
 		}
@@ -418,6 +442,12 @@ func (e *Engine) evalD(c *config, v ssa.Value, d int) Abs {
 		if v.Op == token.MUL {
 			if al, ok := v.X.(*ssa.Alloc); ok && simpleCell(al) {
 				if id, ok := e.ids[al]; ok {
+					return c.get(id)
+				}
+				return Unknown
+			}
+			if fv, ok := v.X.(*ssa.FreeVar); ok {
+				if id, ok := e.ids[fv]; ok {
 					return c.get(id)
 				}
 				return Unknown
@@ -536,6 +566,19 @@ func (e *Engine) assume(c *config, v ssa.Value, a Abs, d int) bool {
 	case *ssa.UnOp:
 		if v.Op == token.NOT {
 			return e.assume(c, v.X, a.Inv(), d+1)
+		}
+		if v.Op == token.MUL {
+			// learning about the current content of a variable cell
+			if al, ok := v.X.(*ssa.Alloc); ok && simpleCell(al) {
+				e.id(al)
+				e.setFact(c, al, a)
+				return true
+			}
+			if fv, ok := v.X.(*ssa.FreeVar); ok {
+				e.id(fv)
+				e.setFact(c, fv, a)
+				return true
+			}
 		}
 	case *ssa.BinOp:
 		if v.Op == token.EQL || v.Op == token.NEQ {
@@ -731,6 +774,11 @@ func (e *Engine) summarise(fn *ssa.Function, s State, pfacts []Abs, outer *confi
 	for i, p := range fn.Params {
 		if i < len(pfacts) && pfacts[i] != Unknown {
 			e.setFact(init, p, pfacts[i])
+		}
+	}
+	for i, fv := range fn.FreeVars {
+		if j := len(fn.Params) + i; j < len(pfacts) && pfacts[j] != Unknown {
+			e.setFact(init, fv, pfacts[j])
 		}
 	}
 	seen := map[string]bool{}
@@ -1192,11 +1240,21 @@ func (e *Engine) doCall(c *config, call ssa.CallInstruction) []*config {
 		}
 		for _, f := range targets {
 			args := call.Common().Args
-			pf := make([]Abs, len(f.Params))
+			pf := make([]Abs, len(f.Params)+len(f.FreeVars))
 			// closures bound via MakeClosure: params align with args
 			for i := range f.Params {
 				if i < len(args) {
 					pf[i] = e.eval(cur, args[i])
+				}
+			}
+			// captured read-only cells carry their facts into the closure
+			if mc, ok := call.Common().Value.(*ssa.MakeClosure); ok && mc.Fn == f {
+				for i, b := range mc.Bindings {
+					if al, ok := b.(*ssa.Alloc); ok && i < len(f.FreeVars) && simpleCell(al) {
+						if id, ok := e.ids[al]; ok {
+							pf[len(f.Params)+i] = cur.get(id)
+						}
+					}
 				}
 			}
 			all := true
